@@ -8,7 +8,7 @@ from vlib.core import Broken, Mismatch, Failing
 
 ID = 'C07'
 LEVEL = 'proof'
-THEORIES = ['theories/L0Bits/BitsFacts.vo', 'theories/L3Context/Ctx.vo']
+THEORIES = ['theories/L0Bits/BitsFacts.vo', 'theories/L3Context/CtxFacts.vo']
 
 HEADER = '''From Coq Require Import ZArith List Bool String.
 Import ListNotations.
